@@ -254,6 +254,31 @@ where
     RangeParameters::init(bits, cap, pc).map_err(|e| err_name(&e))
 }
 
+/// sum_i c_i * base_i over named generators of a parameter set: [["H"|"Gb"|"G"|"Hv", index, scalar_hex], ...]
+fn lincomb_point<P: Grp>(arr: &[Value], params: &RangeParameters<P>) -> Result<P, String>
+where
+    for<'p> &'p P: Mul<Scalar, Output = P>,
+    for<'p> &'p P: Add<Output = P>,
+    P::Compressed: FixedBytesRepr + IsIdentity + Identity,
+{
+    let gi: Vec<&P> = params.gi_base_iter().collect();
+    let hi: Vec<&P> = params.hi_base_iter().collect();
+    let mut acc = P::identity();
+    for t in arr {
+        let i = t[1].as_u64().unwrap_or(0) as usize;
+        let c = sc_unhex(t[2].as_str().ok_or("lincomb scalar")?);
+        let base: &P = match t[0].as_str().ok_or("lincomb base")? {
+            "H" => params.h_base(),
+            "Gb" => params.g_bases().get(i).ok_or("Gb idx")?,
+            "G" => gi.get(i).ok_or("G idx")?,
+            "Hv" => hi.get(i).ok_or("Hv idx")?,
+            _ => return Err("bad base".into()),
+        };
+        acc += base * c;
+    }
+    Ok(acc)
+}
+
 fn point_of_spec<P: Grp>(spec: &Value, params: &RangeParameters<P>) -> Result<P, String>
 where
     for<'p> &'p P: Mul<Scalar, Output = P>,
@@ -268,6 +293,8 @@ where
         let (v, r) = opening_of(&spec["open_std"]);
         let std = P::pedersen(params.g_bases().len());
         std.commit(&Scalar::from(v), &r).map_err(|e| err_name(&e))?
+    } else if let Some(arr) = spec["lincomb"].as_array() {
+        lincomb_point::<P>(arr, params)?
     } else if let Some(tag) = spec["junk"].as_u64() {
         P::junk(tag)
     } else if !spec["identity"].is_null() {
@@ -452,6 +479,9 @@ where
                     };
                     let q = &p + &(&base * sc_unhex(am["hex"].as_str().unwrap()));
                     *q.compress().as_fixed_bytes()
+                } else if let Some(arr) = to["lincomb"].as_array() {
+                    let params = params.ok_or("lincomb needs params")?;
+                    *lincomb_point::<P>(arr, params)?.compress().as_fixed_bytes()
                 } else if let Some(h) = to["hex"].as_str() {
                     let v = unhex(h);
                     let mut b = [0u8; 32];
